@@ -58,12 +58,13 @@ func (t *mixedTable) insert(k, v Value) {
 func (t *mixedTable) reset(k, v Value) (wasSet bool) {
 	i, ok := ToIntNoString(k)
 	if ok {
-		ok, wasSet = t.array.resetValue(i, v)
-		if ok {
+		var inArray bool
+		inArray, wasSet = t.array.resetValue(i, v)
+		if inArray {
 			return
 		}
-	}
-	if ok {
+		// Normalise the key (a float with an integer value denotes that
+		// integer) before looking it up in the hash part.
 		k = IntValue(i)
 	}
 	return t.hashTable.reset(k, v)
